@@ -1,2 +1,373 @@
-(* C03 — placeholder: theorems land with Replicate.v *)
-From HC Require Import Base.
+(* C03 — any honest proof is accepted and replicas converge to the writer's data (pinned statements, generated from
+   the types Coq reports; proofs in Replicate.v on top of Sound.v, NoPanic.v, FlatTreeFacts.v, TreeRef.v).
+   T is the writer's tree as a function from flat index to node, hash-consistent along the climbed path (true of the
+   reference tree, C05).
+   Proved: (no fabrication) every node of every proof the writer creates — block, hash, seek, upgrade, additional —
+   was read from the writer's own tree, the signature is the tree's, the fork the tree's; create_proof returns None
+   exactly when its internal read finds the block not held, else the value read;
+   (block requests) for a replica no longer than the writer whose stored nodes carry the writer's hashes and whose own
+   missing-node count ends on a stored node, the writer creates the proof, the replica's verifier accepts it, the
+   changeset is commitable and contains the leaf and every sibling (C03_block_request_served); prover and verifier walk
+   the same sibling sequence; honest inputs recompute the honest root (converse of C04's reduction);
+   (missing-node query) the count returned is the number of missing levels and ends on a stored node or at the head;
+   (upgrade-only, empty replica, whole log) prover and verifier run in lockstep over the full roots, the verifier ends with
+   exactly the roots sent and the writer's length, and accepts when the signature verifies.
+   NOT proved: upgrades of a non-empty replica (grow / connect branch), partial upgrades with additional nodes, block+upgrade,
+   hash and seek sections, the head case of the missing-node query for a synced replica, and the storage side of
+   verify_and_apply_proof (byte offset of the received block, replica reopen). These request classes are decided on every
+   run by tools/c03.py: replication worlds (writer growth, clears, full and partial upgrades, block/hash/seek requests built
+   from the replica's own missing-node query, replica reopen) on crate and model, with the oracle that every honest proof is
+   accepted and every held block is byte-identical to the writer's. *)
+From HC Require Import Base NMap Codec CodecFacts Crypto FlatTree Storage Bitfield Oplog Merkle Core FlatTreeFacts Sound NoPanic Replicate.
+
+Theorem C03_block_request_served :
+  forall (cr : crypto) (T : N -> node) (t : mtree) (tf : file) (rt : mtree) 
+           (rtf : file) (i k : N) (v pk : bytes),
+         unflushed_indexed t ->
+         (forall (j : N) (n : node), required_node t tf j = Ok n -> n = T j) ->
+         (forall idx : N,
+          In idx (sib_indices (N.to_nat k) (it_new (2 * i))) -> exists n : node, required_node t tf idx = Ok n) ->
+         (forall (j : N) (n : node), optional_node rt rtf j = Ok (Some n) -> n_hash n = n_hash (T j)) ->
+         missing_nodes rt rtf (2 * i) = Ok k ->
+         2 * i < 2 * t_length rt ->
+         t_length rt <= t_length t ->
+         i * 2 <= u64_max ->
+         it_contains (it_up_n (N.to_nat k) (it_new (2 * i))) (2 * t_length rt) = false ->
+         consistent_path cr T (N.to_nat k) (it_new (2 * i)) ->
+         T (2 * i) = block_node cr (2 * i) v ->
+         len v + sumN (map (fun idx : N => n_length (T idx)) (sib_indices (N.to_nat k) (it_new (2 * i)))) <=
+         u64_max ->
+         exists (ns : list node) (cs : changeset),
+           create_valueless_proof t tf (Some {| rb_index := i; rb_nodes := k |}) None None None =
+           Ok
+             {|
+               vp_fork := t_fork t;
+               vp_block := Some {| dh_index := i; dh_nodes := ns |};
+               vp_hash := None;
+               vp_seek := None;
+               vp_upgrade := None
+             |} /\
+           Datatypes.length ns = N.to_nat k /\
+           verify_proof cr rt rtf
+             {|
+               p_fork := t_fork t;
+               p_block := Some {| db_index := i; db_value := v; db_nodes := ns |};
+               p_hash := None;
+               p_seek := None;
+               p_upgrade := None
+             |} pk = Ok cs /\
+           cs_upgraded cs = false /\
+           commitable rt cs = true /\
+           (forall n : node, In n ns -> In n (cs_nodes cs)) /\ In (block_node cr (2 * i) v) (cs_nodes cs).
+Proof. exact block_request_served. Qed.
+
+Theorem C03_block_only_end_to_end :
+  forall (cr : crypto) (T : N -> node) (t : mtree) (tf : file) (rt : mtree) 
+           (rtf : file) (i nodes : N) (v pk : bytes) (vp : vproof),
+         unflushed_indexed t ->
+         (forall (j : N) (n : node), required_node t tf j = Ok n -> n = T j) ->
+         create_valueless_proof t tf (Some {| rb_index := i; rb_nodes := nodes |}) None None None = Ok vp ->
+         consistent_path cr T (N.to_nat nodes) (it_new (2 * i)) ->
+         T (2 * i) = block_node cr (2 * i) v ->
+         (forall ns : list node,
+          vp_block vp = Some {| dh_index := i; dh_nodes := ns |} -> len v + lens ns <= u64_max) ->
+         (exists n : node,
+            required_node rt rtf (it_index (it_up_n (N.to_nat nodes) (it_new (2 * i)))) = Ok n /\
+            n_hash n = n_hash (T (it_index (it_up_n (N.to_nat nodes) (it_new (2 * i)))))) ->
+         exists (ns : list node) (cs : changeset),
+           vp =
+           {|
+             vp_fork := t_fork t;
+             vp_block := Some {| dh_index := i; dh_nodes := ns |};
+             vp_hash := None;
+             vp_seek := None;
+             vp_upgrade := None
+           |} /\
+           Datatypes.length ns = N.to_nat nodes /\
+           verify_proof cr rt rtf
+             {|
+               p_fork := vp_fork vp;
+               p_block := Some {| db_index := i; db_value := v; db_nodes := ns |};
+               p_hash := None;
+               p_seek := None;
+               p_upgrade := None
+             |} pk = Ok cs /\
+           cs_upgraded cs = false /\
+           commitable rt cs = true /\
+           (forall n : node, In n ns -> In n (cs_nodes cs)) /\
+           In (block_node cr (2 * i) v) (cs_nodes cs) /\ Forall (fun n : node => n = T (n_index n)) ns.
+Proof. exact block_only_end_to_end. Qed.
+
+Theorem C03_block_only_accepted :
+  forall (cr : crypto) (T : N -> node) (rt : mtree) (rtf : file) (fork i : N) 
+           (v : bytes) (ns : list node) (pk : bytes),
+         consistent_path cr T (Datatypes.length ns) (it_new (2 * i)) ->
+         T (2 * i) = block_node cr (2 * i) v ->
+         Forall (fun n : node => n = T (n_index n)) ns ->
+         Forall2 (fun (idx : N) (n : node) => n_index n = idx)
+           (sib_indices (Datatypes.length ns) (it_new (2 * i))) ns ->
+         i * 2 <= u64_max ->
+         len v + lens ns <= u64_max ->
+         (forall ri : N,
+          ri = it_index (it_up_n (Datatypes.length ns) (it_new (2 * i))) ->
+          exists n : node, required_node rt rtf ri = Ok n /\ n_hash n = n_hash (T ri)) ->
+         exists (r : node) (visited : list node),
+           (r, visited) = climb_ref cr ns (it_new (2 * i)) (block_node cr (2 * i) v) [block_node cr (2 * i) v] /\
+           n_index r = it_index (it_up_n (Datatypes.length ns) (it_new (2 * i))) /\
+           n_hash r = n_hash (T (n_index r)) /\
+           n_length r = n_length (T (n_index r)) /\
+           verify_proof cr rt rtf
+             {|
+               p_fork := fork;
+               p_block := Some {| db_index := i; db_value := v; db_nodes := ns |};
+               p_hash := None;
+               p_seek := None;
+               p_upgrade := None
+             |} pk = Ok (cs_push_nodes (tree_changeset rt) visited).
+Proof. exact block_only_accepted. Qed.
+
+Theorem C03_honest_inputs_give_honest_root :
+  forall (cr : crypto) (T : N -> node) (i : N) (v : bytes) (ns : list node),
+         consistent_path cr T (Datatypes.length ns) (it_new (2 * i)) ->
+         T (2 * i) = block_node cr (2 * i) v ->
+         Forall (fun n : node => n = T (n_index n)) ns ->
+         Forall2 (fun (idx : N) (n : node) => n_index n = idx)
+           (sib_indices (Datatypes.length ns) (it_new (2 * i))) ns ->
+         let r := fst (climb_ref cr ns (it_new (2 * i)) (block_node cr (2 * i) v) [block_node cr (2 * i) v]) in
+         n_hash r = n_hash (T (n_index r)) /\ n_length r = n_length (T (n_index r)).
+Proof. exact block_only_root_honest. Qed.
+
+Theorem C03_prover_and_verifier_walk_agree :
+  forall (cr : crypto) (i : N) (v : bytes) (ns : list node) (c : changeset),
+         Forall2 (fun (idx : N) (n : node) => n_index n = idx)
+           (sib_indices (Datatypes.length ns) (it_new (2 * i))) ns ->
+         i * 2 <= u64_max ->
+         len v + lens ns <= u64_max ->
+         exists (r : node) (visited : list node),
+           verify_tree cr (Some {| db_index := i; db_value := v; db_nodes := ns |}) None None c =
+           Ok (Some r, cs_push_nodes c visited) /\
+           (r, visited) = climb_ref cr ns (it_new (2 * i)) (block_node cr (2 * i) v) [block_node cr (2 * i) v] /\
+           n_index r = it_index (it_up_n (Datatypes.length ns) (it_new (2 * i))) /\
+           n_length r = len v + lens ns /\
+           (exists ext : list node,
+              visited = block_node cr (2 * i) v :: ext /\
+              Datatypes.length ext = (2 * Datatypes.length ns)%nat /\ (forall n : node, In n ns -> In n ext)).
+Proof. exact block_only_climb_agrees. Qed.
+
+Theorem C03_block_proof_shape :
+  forall (t : mtree) (tf : file) (i nodes : N) (vp : vproof),
+         create_valueless_proof t tf (Some {| rb_index := i; rb_nodes := nodes |}) None None None = Ok vp ->
+         exists ns : list node,
+           vp =
+           {|
+             vp_fork := t_fork t;
+             vp_block := Some {| dh_index := i; dh_nodes := ns |};
+             vp_hash := None;
+             vp_seek := None;
+             vp_upgrade := None
+           |} /\
+           Datatypes.length ns = N.to_nat nodes /\
+           Forall2 (fun (idx : N) (n : node) => required_node t tf idx = Ok n)
+             (sib_indices (N.to_nat nodes) (it_new (2 * i))) ns /\
+           (forall (k : nat) (n : node),
+            nth_error ns k = Some n ->
+            required_node t tf (it_index (it_sibling (it_up_n k (it_new (2 * i))))) = Ok n) /\
+           nodes_to_root (2 * i) nodes (2 * t_length t) =
+           Ok (it_index (it_up_n (N.to_nat nodes) (it_new (2 * i)))) /\
+           (forall j : nat,
+            (0 < j <= N.to_nat nodes)%nat -> it_contains (it_up_n j (it_new (2 * i))) (2 * t_length t) = false) /\
+           fits_u64 (i * 2) = true /\ 0 < t_length t.
+Proof. exact block_only_proof_shape. Qed.
+
+Theorem C03_no_fabrication :
+  forall (t : mtree) (tf : file) (block hash : option req_block) (seek : option req_seek)
+           (upgrade : option req_upgrade) (vp : vproof),
+         create_valueless_proof t tf block hash seek upgrade = Ok vp ->
+         vp_all (from_writer t tf) vp /\
+         vp_fork vp = t_fork t /\
+         (forall b : data_hash,
+          vp_block vp = Some b -> exists rb : req_block, block = Some rb /\ dh_index b = rb_index rb) /\
+         (forall h : data_hash,
+          vp_hash vp = Some h ->
+          exists rh : req_block, block = None /\ hash = Some rh /\ dh_index h = rb_index rh) /\
+         (forall s : data_seek,
+          vp_seek vp = Some s -> exists rs : req_seek, seek = Some rs /\ ds_bytes s = rs_bytes rs) /\
+         (forall u : data_upgrade,
+          vp_upgrade vp = Some u ->
+          exists ru : req_upgrade,
+            upgrade = Some ru /\
+            du_start u = ru_start ru /\ du_length u = ru_length ru /\ t_signature t = Some (du_signature u)) /\
+         (upgrade = None -> vp_upgrade vp = None).
+Proof. exact create_proof_no_fabrication. Qed.
+
+Theorem C03_create_proof_value_or_none :
+  forall (block hash : option req_block) (seek : option req_seek) (upgrade : option req_upgrade)
+           (c : core) (w : world) (c' : core) (w' : world) (r : option proof),
+         core_create_proof block hash seek upgrade c w = (c', w', Ok r) ->
+         exists vp : vproof,
+           create_valueless_proof (c_tree c) (d_tree (w_disk w)) block hash seek upgrade = Ok vp /\
+           vp_all (from_writer (c_tree c) (d_tree (w_disk w))) vp /\
+           match vp_block vp with
+           | Some b =>
+               exists v : option bytes,
+                 core_get (dh_index b) c w = (c', w', Ok v) /\
+                 r =
+                 match v with
+                 | Some value =>
+                     Some
+                       {|
+                         p_fork := vp_fork vp;
+                         p_block :=
+                           Some {| db_index := dh_index b; db_value := value; db_nodes := dh_nodes b |};
+                         p_hash := vp_hash vp;
+                         p_seek := vp_seek vp;
+                         p_upgrade := vp_upgrade vp
+                       |}
+                 | None => None
+                 end
+           | None =>
+               c' = c /\
+               w' = w /\
+               r =
+               Some
+                 {|
+                   p_fork := vp_fork vp;
+                   p_block := None;
+                   p_hash := vp_hash vp;
+                   p_seek := vp_seek vp;
+                   p_upgrade := vp_upgrade vp
+                 |}
+           end.
+Proof. exact core_create_proof_inv. Qed.
+
+Theorem C03_missing_nodes_meaning :
+  forall (rt : mtree) (rtf : file) (i k : N),
+         missing_nodes rt rtf (2 * i) = Ok k ->
+         2 * i < 2 * t_length rt ->
+         let itk := it_up_n (N.to_nat k) (it_new (2 * i)) in
+         (N.to_nat k < CLIMB)%nat /\
+         (forall j : nat,
+          (j < N.to_nat k)%nat ->
+          it_contains (it_up_n j (it_new (2 * i))) (2 * t_length rt) = false /\
+          optional_node rt rtf (it_index (it_up_n j (it_new (2 * i)))) = Ok None) /\
+         (it_contains itk (2 * t_length rt) = true \/
+          it_contains itk (2 * t_length rt) = false /\
+          (exists n : node, optional_node rt rtf (it_index itk) = Ok (Some n))).
+Proof. exact missing_nodes_gives_stored_root. Qed.
+
+Theorem C03_missing_nodes_request_wellformed :
+  forall (rt : mtree) (rtf : file) (i k L : N),
+         missing_nodes rt rtf (2 * i) = Ok k ->
+         2 * i < 2 * t_length rt ->
+         t_length rt <= L ->
+         it_contains (it_up_n (N.to_nat k) (it_new (2 * i))) (2 * t_length rt) = false ->
+         nodes_to_root (2 * i) k (2 * L) = Ok (it_index (it_up_n (N.to_nat k) (it_new (2 * i)))) /\
+         (exists n : node,
+            optional_node rt rtf (it_index (it_up_n (N.to_nat k) (it_new (2 * i)))) = Ok (Some n)).
+Proof. exact missing_nodes_request_wellformed. Qed.
+
+Theorem C03_block_only_changeset_commitable :
+  forall (cr : crypto) (rt : mtree) (rtf : file) (fork : N) (ob : option data_block)
+           (oh : option data_hash) (os : option data_seek) (pk : bytes) (cs : changeset),
+         verify_proof cr rt rtf
+           {| p_fork := fork; p_block := ob; p_hash := oh; p_seek := os; p_upgrade := None |} pk = 
+         Ok cs ->
+         cs_upgraded cs = false /\
+         cs_orig_length cs = t_length rt /\
+         cs_orig_fork cs = t_fork rt /\
+         cs_roots cs = t_roots rt /\
+         cs_length cs = t_length rt /\
+         commitable rt cs = true /\
+         tree_commit rt cs =
+         Ok
+           {|
+             t_roots := t_roots rt;
+             t_length := t_length rt;
+             t_byte_length := t_byte_length rt;
+             t_fork := t_fork rt;
+             t_signature := t_signature rt;
+             t_unflushed := add_nodes (t_unflushed rt) (cs_nodes cs)
+           |}.
+Proof. exact verify_proof_commitable_block_only. Qed.
+
+Theorem C03_upgrade_only_accepted :
+  forall (cr : crypto) (t : mtree) (tf : file) (rt : mtree) (rtf : file) (pk : bytes) (vp : vproof),
+         unflushed_indexed t ->
+         create_valueless_proof t tf None None None (Some {| ru_start := 0; ru_length := t_length t |}) = Ok vp ->
+         t_roots rt = [] ->
+         t_length rt = 0 ->
+         exists (roots : list node) (sg : bytes),
+           vp =
+           {|
+             vp_fork := t_fork t;
+             vp_block := None;
+             vp_hash := None;
+             vp_seek := None;
+             vp_upgrade :=
+               Some
+                 {|
+                   du_start := 0;
+                   du_length := t_length t;
+                   du_nodes := roots;
+                   du_additional := [];
+                   du_signature := sg
+                 |}
+           |} /\
+           t_signature t = Some sg /\
+           roots <> [] /\
+           Forall (from_writer t tf) roots /\
+           (t_byte_length rt + lens roots <= u64_max ->
+            Datatypes.length sg = 64%nat ->
+            cr_verify cr pk (signable (tree_hash cr roots) (t_length t) (t_fork t)) sg = true ->
+            exists cs : changeset,
+              verify_proof cr rt rtf
+                {|
+                  p_fork := t_fork t;
+                  p_block := None;
+                  p_hash := None;
+                  p_seek := None;
+                  p_upgrade :=
+                    Some
+                      {|
+                        du_start := 0;
+                        du_length := t_length t;
+                        du_nodes := roots;
+                        du_additional := [];
+                        du_signature := sg
+                      |}
+                |} pk = Ok cs /\
+              cs_roots cs = roots /\
+              cs_length cs = t_length t /\
+              cs_fork cs = t_fork t /\
+              cs_byte_length cs = t_byte_length rt + lens roots /\
+              cs_upgraded cs = true /\
+              cs_signature cs = Some sg /\
+              cs_hash cs = Some (tree_hash cr roots) /\
+              cs_nodes cs = roots /\ cs_ancestors cs = 0 /\ commitable rt cs = true).
+Proof. exact upgrade_only_accepted. Qed.
+
+Theorem C03_upgrade_nodes_are_full_roots :
+  forall (t : mtree) (tf : file) (vp : vproof),
+         create_valueless_proof t tf None None None (Some {| ru_start := 0; ru_length := t_length t |}) = Ok vp ->
+         exists u : data_upgrade,
+           vp_upgrade vp = Some u /\
+           Forall2 (fun (idx : N) (n : node) => required_node t tf idx = Ok n) (ft_full_roots (2 * t_length t))
+             (du_nodes u) /\ (unflushed_indexed t -> map n_index (du_nodes u) = ft_full_roots (2 * t_length t)).
+Proof. exact upgrade_only_roots_are_full_roots. Qed.
+
+Print Assumptions C03_block_request_served.
+Print Assumptions C03_block_only_end_to_end.
+Print Assumptions C03_block_only_accepted.
+Print Assumptions C03_honest_inputs_give_honest_root.
+Print Assumptions C03_prover_and_verifier_walk_agree.
+Print Assumptions C03_block_proof_shape.
+Print Assumptions C03_no_fabrication.
+Print Assumptions C03_create_proof_value_or_none.
+Print Assumptions C03_missing_nodes_meaning.
+Print Assumptions C03_missing_nodes_request_wellformed.
+Print Assumptions C03_block_only_changeset_commitable.
+Print Assumptions C03_upgrade_only_accepted.
+Print Assumptions C03_upgrade_nodes_are_full_roots.
+Print Assumptions ex_core_replication.
+Print Assumptions ex_block_request_served.
+Print Assumptions ex_block_proof_tampered.
